@@ -6,8 +6,11 @@ Writes lean/XmpModel/Gen/DataWriters.lean (namespace Xmp.Gen.DataWriters).
 
 Method
 ------
-For every player-side file (PLAYER_FILES) the clang-14 JSON AST of the working
-tree is walked.  Inside every function defined in that file each *store* is
+All of src/*.c (plus any loader/depacker file the call graph leads into) is parsed with clang-14
+(JSON AST); the call graph (direct calls, address-taken functions, file-scope tables of function
+pointers, inline functions of libxmp headers) is closed from the post-load API entry points of
+include/xmp.h (everything but creation, loading, testing and tear-down), and the functions reachable
+from them are walked.  Inside every function defined in that file each *store* is
 collected:
   * `=` / compound assignment / `++` / `--`      -> the stored-to lvalue
   * memcpy/memmove/memset/strcpy/strncpy/snprintf/sprintf/fread/hio_read -> `*arg0`
@@ -328,11 +331,15 @@ def collect_function(fn, fname):
                 published.append(((rhs.get("referencedDecl") or {}).get("name", "?"), inner[0]))
         if k == "UnaryOperator" and n.get("opcode") in ("++", "--"):
             stores.append((here, inner[0]))
+        if k == "DeclRefExpr":
+            rd = n.get("referencedDecl") or {}
+            if rd.get("kind") == "FunctionDecl" and rd.get("name"):
+                calls.add(rd["name"])          # called or address taken
+            elif rd.get("kind") == "VarDecl" and rd.get("name"):
+                fn.setdefault("_varrefs", set()).add(rd["name"])
         if k == "CallExpr" and inner:
             callee = strip(inner[0])
             name = (callee.get("referencedDecl") or {}).get("name") if callee else None
-            if name:
-                calls.add(name)
             if name in STORE_CALLS and len(inner) > 1:
                 stores.append((here, {"kind": "UnaryOperator", "opcode": "*", "inner": [inner[1]]}))
         for c in inner:
@@ -371,35 +378,150 @@ def collect_function(fn, fname):
     return out
 
 
+def _func_refs(n, out):
+    """names of functions referenced anywhere below n"""
+    if isinstance(n, dict):
+        if n.get("kind") == "DeclRefExpr" and (n.get("referencedDecl") or {}).get("kind") == "FunctionDecl":
+            out.add(n["referencedDecl"].get("name"))
+        for c in n.get("inner") or []:
+            _func_refs(c, out)
+    return out
+
+
 def scan_file(args):
-    repo, fname = args
-    ast = clang_ast(repo, fname)
-    text = open(os.path.join(repo, "src", fname), errors="replace").read()
-    entries = []
-    called = set()
-    cur_file = [None]
-    main = os.path.join(repo, "src", fname)
+    """One translation unit -> (function records, file-scope variables holding function pointers).
+    A function record: name, file (the .c file, or the libxmp header an inline function comes from), static?,
+    classified stores, names of functions called / address-taken, names of variables referenced."""
+    repo, rel, headers = args
+    ast = _clang_ast(repo, rel)
+    fname = os.path.basename(rel)
+    funcs, tables = [], {}
     for d in ast.get("inner", []):
         loc = d.get("loc", {})
-        f = loc.get("file") or (loc.get("expansionLoc") or {}).get("file") or (loc.get("spellingLoc") or {}).get("file")
-        if f:
-            cur_file[0] = f
+        eloc = loc.get("expansionLoc") or loc
+        from_header = "includedFrom" in eloc
+        if d.get("kind") == "VarDecl" and not from_header:
+            refs = _func_refs(d, set())
+            if refs:
+                tables[d.get("name", "?")] = sorted(refs)
+            continue
         if d.get("kind") != "FunctionDecl" or not any(c.get("kind") == "CompoundStmt" for c in d.get("inner", [])):
             continue
         name = d.get("name", "?")
-        in_main = (cur_file[0] == main) if cur_file[0] else True
-        if "includedFrom" in loc and cur_file[0] != main:
-            in_main = False
-        # cross-check with the text: the function name must be defined in the main file
-        if not re.search(r"\b%s\s*\(" % re.escape(name), text):
-            in_main = False
-        if not in_main:
-            continue
-        for (ln, target, smix, field, via) in collect_function(d, fname):
-            entries.append({"file": fname, "func": name, "target": target, "smix": smix, "field": field, "via": via,
-                            "line": ln})
-        called |= d.get("_calls", set())
-    return entries, called
+        where = fname
+        if from_header:
+            where = headers.get(name)      # inline function of a libxmp header; system headers: skipped
+            if where is None:
+                continue
+        entries = [{"file": where, "func": name, "target": t, "smix": sm, "field": fl, "via": via, "line": ln}
+                   for (ln, t, sm, fl, via) in collect_function(d, where)]
+        funcs.append({"name": name, "file": where, "static": d.get("storageClass") == "static", "entries": entries,
+                      "calls": sorted(d.get("_calls", set())), "varrefs": sorted(d.get("_varrefs", set()))})
+    return funcs, tables, fname
+
+
+# API functions that are not "post-load" calls on a loaded module: creation, loading, testing, tear-down
+NOT_POST_LOAD = {"xmp_create_context", "xmp_free_context", "xmp_load_module", "xmp_load_module_from_memory",
+                 "xmp_load_module_from_file", "xmp_load_module_from_callbacks", "xmp_test_module",
+                 "xmp_test_module_from_memory", "xmp_test_module_from_file", "xmp_test_module_from_callbacks",
+                 "xmp_release_module", "xmp_set_instrument_path", "xmp_get_format_list", "xmp_syserrno"}
+
+
+def api_roots(repo):
+    hdr = open(os.path.join(repo, "include", "xmp.h"), errors="replace").read()
+    names = set(re.findall(r"^LIBXMP_EXPORT\s+[\w\s\*]*?\b(xmp_\w+)\s*\(", hdr, re.M))
+    if "xmp_play_frame" not in names or "xmp_set_player" not in names:
+        raise GenError("cannot read the exported API from include/xmp.h")
+    return sorted(names - NOT_POST_LOAD)
+
+
+def _definition_index(repo):
+    """function name -> files under src/loaders, src/depackers that seem to define it (text scan; used only to decide
+    which further translation units must be parsed when the call graph leaves src/*.c)"""
+    idx = {}
+    for sub in ("loaders", "loaders/prowizard", "depackers"):
+        for p in sorted(glob.glob(os.path.join(repo, "src", sub, "*.c"))):
+            txt = open(p, errors="replace").read()
+            for m in re.finditer(r"^[A-Za-z_][\w \t\*]*?\b(\w+)[ \t]*\([^;{]*\)\s*\{", txt, re.M):
+                idx.setdefault(m.group(1), []).append(os.path.relpath(p, os.path.join(repo, "src")))
+    return idx
+
+
+def _libxmp_header_inlines(repo):
+    out = {}
+    for p in sorted(glob.glob(os.path.join(repo, "src", "*.h")) + glob.glob(os.path.join(repo, "src", "loaders", "*.h"))):
+        txt = open(p, errors="replace").read()
+        for m in re.finditer(r"^(?:static|LIBXMP_INLINE|inline)[\w \t\*]*?\b(\w+)[ \t]*\([^;{]*\)\s*\{", txt, re.M):
+            out.setdefault(m.group(1), os.path.basename(p))
+    return out
+
+
+def reachable_functions(repo):
+    """Parse src/*.c (and whatever loader/depacker file the call graph leads into), build the call graph (direct
+    calls, address-taken functions, file-scope tables of function pointers) and return the function records
+    reachable from the post-load API entry points."""
+    headers = _libxmp_header_inlines(repo)
+    todo = sorted(os.path.relpath(p, os.path.join(repo, "src")) for p in glob.glob(os.path.join(repo, "src", "*.c")))
+    index = _definition_index(repo)
+    parsed, records, tables = set(), {}, {}
+    roots = api_roots(repo)
+    with concurrent.futures.ProcessPoolExecutor(max_workers=min(16, os.cpu_count() or 2)) as ex:
+        while True:
+            batch = [f for f in todo if f not in parsed]
+            for funcs, tbls, fname in ex.map(scan_file, [(repo, f, headers) for f in batch]):
+                for fr in funcs:
+                    lst = records.setdefault(fr["name"], [])
+                    if not any(o["file"] == fr["file"] for o in lst):
+                        lst.append(fr)
+                for k, v in tbls.items():
+                    tables.setdefault(k, set()).update(v)
+            parsed.update(batch)
+            # reachability with what is known so far
+            seen, order, work = set(), [], []
+
+            def norm(n):
+                return re.sub(r"_v\d+__$", "", n)
+
+            for name, lst in records.items():
+                if norm(name) in roots:
+                    work += [(fr, norm(name)) for fr in lst]
+            missing = set()
+            while work:
+                fr, root = work.pop()
+                key = (fr["file"], fr["name"])
+                if key in seen:
+                    continue
+                seen.add(key)
+                fr["root"] = root
+                order.append(fr)
+                names = set(fr["calls"])
+                for v in fr["varrefs"]:
+                    names |= tables.get(v, set())
+                for n in names:
+                    cands = records.get(n)
+                    if not cands:
+                        if n in index:
+                            missing.update(index[n])
+                        continue
+                    same = [c for c in cands if c["file"] == fr["file"]]
+                    for c in (same or cands):
+                        work.append((c, root))
+            todo = sorted(missing - parsed)
+            if not todo:
+                break
+    # direct reachable callers of every reachable function (by name)
+    callers = {}
+    for fr in order:
+        names = set(fr["calls"])
+        for v in fr["varrefs"]:
+            names |= tables.get(v, set())
+        for n in names:
+            callers.setdefault(n, set()).add(fr["name"])
+    for fr in order:
+        fr["callers"] = sorted(callers.get(fr["name"], set()) - {fr["name"]})
+    if not any(fr["name"] == "xmp_play_frame" for fr in order):
+        raise GenError("xmp_play_frame not found among the parsed functions")
+    return order, roots, sorted(parsed)
 
 
 # ---- control skeleton of the functions that patch / restore -------------------
@@ -547,14 +669,14 @@ def lean_str(s):
 
 def generate(repo=None):
     repo = repo_root(repo)
-    files = player_files(repo)
-    with concurrent.futures.ThreadPoolExecutor(max_workers=min(8, os.cpu_count() or 2)) as ex:
-        results = list(ex.map(scan_file, [(repo, f) for f in files]))
-    entries = [e for r in results for e in r[0]]
-    called = set().union(*[r[1] for r in results]) if results else set()
-    for e in entries:
-        e["playerCalled"] = e["func"] in called
-    uniq = sorted({(e["file"], e["func"], e["target"], e["smix"], e["field"], e["via"], e["playerCalled"]) for e in entries})
+    reach, roots, parsed = reachable_functions(repo)
+    entries = [e for fr in reach for e in fr["entries"]]
+    for fr in reach:
+        for e in fr["entries"]:
+            e["root"] = fr["root"]
+            e["callers"] = fr["callers"]
+    files = sorted({fr["file"] for fr in reach})
+    uniq = sorted({(e["file"], e["func"], e["target"], e["smix"], e["field"], e["via"], tuple(e["callers"])) for e in entries})
     k = constants(repo)
     skel = skeletons(repo, entries)
     L = []
@@ -564,24 +686,29 @@ def generate(repo=None):
     L.append("inductive Target where")
     L.append("  | " + " | ".join(TARGETS))
     L.append("  deriving DecidableEq, Repr\n")
-    L.append("/-- one class of store sites: file, enclosing function, target table, whether the access chain goes")
+    L.append("/-- one class of store sites in a function reachable from a post-load API call: file, enclosing function, target table, whether the access chain goes")
     L.append("through `struct smix_data` (the external-sample mixer's own tables), innermost field stored to")
     L.append("(\"\" for element stores through a data pointer) -/")
     L.append("structure Writer where")
     L.append("  file : String\n  func : String\n  target : Target\n  smix : Bool\n  field : String")
     L.append("  /-- for `sampleBytes`: the pointer field the store goes through (`record.field`) -/")
     L.append("  via : String")
-    L.append("  /-- some function of the scanned player-side files calls `func` by name -/")
-    L.append("  playerCalled : Bool")
+    L.append("  /-- the reachable functions that call `func` directly (or hold its address) -/")
+    L.append("  callers : List String")
     L.append("  deriving DecidableEq, Repr\n")
     L.append("def dataWriters : List Writer := [")
-    rows = ["  { file := %s, func := %s, target := .%s, smix := %s, field := %s, via := %s, playerCalled := %s }" % (
-        lean_str(f), lean_str(fn), t, "true" if sm else "false", lean_str(fl), lean_str(via), "true" if pc else "false")
-        for (f, fn, t, sm, fl, via, pc) in uniq]
+    rows = ["  { file := %s, func := %s, target := .%s, smix := %s, field := %s, via := %s, callers := [%s] }" % (
+        lean_str(f), lean_str(fn), t, "true" if sm else "false", lean_str(fl), lean_str(via),
+        ", ".join(lean_str(c) for c in cs)) for (f, fn, t, sm, fl, via, cs) in uniq]
     L.append(",\n".join(rows))
     L.append("]\n")
-    L.append("/-- player-side files that were scanned -/")
+    L.append("/-- the post-load API entry points (include/xmp.h minus creation/loading/testing/tear-down) -/")
+    L.append("def apiRoots : List String := [" + ", ".join(lean_str(f) for f in roots) + "]\n")
+    L.append("/-- files holding at least one function reachable from an API root (direct calls, address-taken functions,")
+    L.append("file-scope tables of function pointers); `dataWriters` lists the stores of exactly these functions -/")
     L.append("def scannedFiles : List String := [" + ", ".join(lean_str(f) for f in files) + "]\n")
+    L.append("/-- the reachable functions -/")
+    L.append("def reachableFuncs : List String := [" + ", ".join(lean_str(f) for f in sorted({fr["name"] for fr in reach})) + "]\n")
     L.append("/-- `LOOP_PROLOGUE`, `LOOP_EPILOGUE` (src/mixer.c) -/")
     L.append("def loopPrologue : Nat := %d" % k["loopPrologue"])
     L.append("def loopEpilogue : Nat := %d" % k["loopEpilogue"])
@@ -626,8 +753,8 @@ def main():
         print("gen_data_writers: " + str(e))
         return 2
     for e in sorted(entries, key=lambda e: (e["file"], e["line"])):
-        print("%s:%d %s %s%s %s %s%s" % (e["file"], e["line"], e["func"], e["target"], " [smix]" if e["smix"] else "",
-                                       e["field"], e["via"], " (called from player side)" if e["playerCalled"] else ""))
+        print("%s:%d %s %s%s %s %s (reachable from %s)" % (e["file"], e["line"], e["func"], e["target"],
+                                                       " [smix]" if e["smix"] else "", e["field"], e["via"], e.get("root")))
     print("%d store sites, %s" % (len(entries), "file rewritten" if changed else "file unchanged"))
     return 0
 
